@@ -89,6 +89,11 @@ def leaf_names(st, f):
 def gen_stream(rnd, n, period, style):
     """Mixed stream: 2 numeric-coded categorical + 2 numeric features, recurring abrupt / gradual concept drift."""
     for i in range(n):
+        if style == "collapse":      # c1 is a function of n1 first, pure noise afterwards: with a long grace period the adaptive tree of
+            n1 = rnd.uniform(-1, 1)  # c1 is replaced by a still unsplit alternate and COLLAPSES to a single leaf
+            c1 = int(n1 > 0) if i < period else int(rnd.random() < 0.9)
+            yield {"c1": c1, "c2": rnd.choice([0, 1]), "n1": n1, "n2": rnd.gauss(0, 0.3)}
+            continue
         phase = (i // period) % 3
         if style == "gradual" and rnd.random() < (i % period) / period * 0.5:
             phase = (phase + 1) % 3
@@ -135,6 +140,13 @@ WITNESS = [
     (2, 100, 1, 800, "abrupt", 150, 4200),
     (2, 50, 1, 600, "abrupt", 115, 4500),
     (2, 100, 3, 600, "abrupt", 166, 4900),
+]
+# ... and scenarios (fixed seeds) in which the tree of c1 collapses to ONE leaf (an unsplit alternate replaces the root)
+COLLAPSE = [
+    (3, 500, 5, 2500, "collapse", 1, 3300),
+    (2, 400, 3, 1800, "collapse", 3, 2600),
+    (3, 500, 5, 2500, "collapse", 5, 3300),
+    (2, 400, 3, 1800, "collapse", 4, 2600),
 ]
 
 
@@ -223,8 +235,8 @@ def main(run):
     def model(xx):
         model_calls.append(dict(xx))
         return {"output": 0.0}
-    plan = [(c[:5] + (None, c[6] if thorough else c[5])) for c in CONFIGS] + list(WITNESS if thorough else WITNESS[:3])
-    plan = plan[-len(WITNESS if thorough else WITNESS[:3]):] + plan[:-len(WITNESS if thorough else WITNESS[:3])]
+    fixed = list(WITNESS if thorough else WITNESS[:3]) + list(COLLAPSE if thorough else COLLAPSE[:2])
+    plan = fixed + [(c[:5] + (None, c[6] if thorough else c[5])) for c in CONFIGS]
     for j, (md, gp, L, period, style, fixed_seed, steps) in enumerate(plan):
         if j % nsh != sh:
             continue
@@ -283,6 +295,8 @@ def main(run):
             for f in feats:
                 names, nleaves, unnamed = leaf_names(st, f)
                 keys = set(st.data_reservoirs[f].keys())
+                if prev_names[f] is not None and len(prev_names[f]) > 1 and len(names) == 1:
+                    run.count("tree-collapsed-to-one-leaf")
                 if prev_names[f] is not None and (prev_names[f] - names):
                     lost = prev_names[f] - names
                     run.count("updates-where-a-tree-lost-named-leaves")
@@ -341,4 +355,4 @@ def main(run):
             run.sample({"config": tag0, "seed": seed, "steps": i + 1, "leaf_loss_events": lost_events,
                         "reservoir_keys_per_feature": {f: len(st.data_reservoirs[f]) for f in feats},
                         "example_leaf_name": sorted(leaf_names(st, "n1")[0])[0][:200]})
-    run.require_count("critical-restructure-events", "updates-where-a-tree-lost-named-leaves")
+    run.require_count("critical-restructure-events", "updates-where-a-tree-lost-named-leaves", "tree-collapsed-to-one-leaf")
